@@ -125,6 +125,10 @@ pub struct StreamInfo {
     pub close_req: Option<(u64, u64)>,
     /// (seq, t, acks, modacks, secs, hostile)
     pub sends: Vec<(u64, u64, Vec<String>, Vec<String>, Vec<i32>, bool)>,
+    /// Intervals (seq) during which the client of a windowed stream was not reading.
+    pub stalls: Vec<(u64, Option<u64>)>,
+    /// Response pipe of this many responses (0 = read as produced).
+    pub window: u32,
 }
 
 #[derive(Clone, Debug)]
@@ -310,10 +314,10 @@ impl<'a> Model<'a> {
                         _ => {}
                     }
                 }
-                Ev::StreamOpen { slot, sub, max_msgs, .. } => {
+                Ev::StreamOpen { slot, sub, max_msgs, window, .. } => {
                     m.streams.insert(
                         *slot,
-                        StreamInfo { slot: *slot, client: e.client, sub: sub.clone(), max_msgs: *max_msgs, open_seq: e.seq, open_t: e.t_us, ..Default::default() },
+                        StreamInfo { slot: *slot, client: e.client, sub: sub.clone(), max_msgs: *max_msgs, open_seq: e.seq, open_t: e.t_us, window: *window, ..Default::default() },
                     );
                 }
                 Ev::StreamStarted { slot, code } => {
@@ -326,8 +330,10 @@ impl<'a> Model<'a> {
                     if let Some(s) = m.streams.get_mut(slot) {
                         let (mut lo_seq, mut lo_t) = s.items.last().map(|(a, b, _)| (*a, *b)).unwrap_or((s.open_seq, s.open_t));
                         // At a quiescent barrier an open stream's pull loop is parked; whatever it
-                        // delivers later was pulled after that barrier.
-                        if let Some(b) = m.barriers.iter().rev().find(|b| b.quiescent) {
+                        // delivers later was pulled after that barrier. (Not so for a stream whose
+                        // response pipe can be full: its handler may have a pull in flight - the
+                        // messages leased to it - that it cannot hand over until the client reads.)
+                        if let Some(b) = m.barriers.iter().rev().find(|b| b.quiescent).filter(|_| s.window == 0) {
                             if b.seq > lo_seq {
                                 lo_seq = b.seq;
                                 lo_t = b.t;
@@ -356,6 +362,15 @@ impl<'a> Model<'a> {
                 Ev::StreamSend { slot, acks, modacks, modack_secs, hostile } => {
                     if let Some(s) = m.streams.get_mut(slot) {
                         s.sends.push((e.seq, e.t_us, acks.clone(), modacks.clone(), modack_secs.clone(), *hostile));
+                    }
+                }
+                Ev::StreamStall { slot, on } => {
+                    if let Some(s) = m.streams.get_mut(slot) {
+                        if *on {
+                            s.stalls.push((e.seq, None));
+                        } else if let Some(last) = s.stalls.last_mut() {
+                            last.1 = Some(e.seq);
+                        }
                     }
                 }
                 Ev::StreamCloseReq { slot } => {
